@@ -70,6 +70,8 @@ Clauses(S, o) ==
      <<"maximal.strict", o.maxs = MaximalOf(S, TRUE)>> >>
 
 Verdict(r) ==
+  \* a public view that disagrees with the tables it is a view of (members, memberships, ids, counts)
+  IF r.viewanom # <<>> THEN <<"C06:" \o r.viewanom[1]>> ELSE
   IF r.postanom # <<>> THEN <<"tainted">> ELSE
   LET S == FromJ(r.post) IN
   IF ~Integrity(S) THEN <<"tainted">>
